@@ -84,7 +84,7 @@ impl CloneWith for SwapRoute {
     }
 }
 
-pub fn build(after_transfer: bool) -> Setup {
+pub fn build(after_transfer: bool, combined: bool) -> Setup {
     let mut w = World::new();
     let h = deploy_full(&mut w);
     // things the privileged payloads need
@@ -110,7 +110,91 @@ pub fn build(after_transfer: bool) -> Setup {
         &[coin(1000, "ufee"), coin(7000, "ureward")],
     )
     .expect("second flow with the same label");
-    if after_transfer {
+    if after_transfer && combined {
+        // the ownership changes hands in messages that also set every other field (to the values currently in force, or to
+        // other valid ones): a transfer must not depend on travelling alone
+        use white_whale_std::pool_network::pair::FeatureToggle as PT;
+        use white_whale_std::pool_network::trio::{FeatureToggle as TT, RampAmp};
+        let no = Some(NEWOWNER.to_string());
+        let height = w.snapshot().height;
+        let coll = Some(h.fee.collector.clone());
+        w.exec(OWNER, &h.fee.pool_factory, &white_whale_std::pool_network::factory::ExecuteMsg::UpdatePairConfig { pair_addr: h.pair.addr.clone(), owner: no.clone(), fee_collector_addr: coll.clone(), pool_fees: Some(FH_FEES.pool()), feature_toggle: Some(PT { withdrawals_enabled: true, deposits_enabled: true, swaps_enabled: true }) }, &[]).expect("combined pair");
+        w.exec(OWNER, &h.fee.pool_factory, &white_whale_std::pool_network::factory::ExecuteMsg::UpdateTrioConfig { trio_addr: h.trio.addr.clone(), owner: no.clone(), fee_collector_addr: coll.clone(), pool_fees: Some(FH_FEES.trio()), feature_toggle: Some(TT { withdrawals_enabled: true, deposits_enabled: true, swaps_enabled: true }), amp_factor: Some(RampAmp { future_a: 150, future_block: height + 15_000 }) }, &[]).expect("combined trio");
+        w.exec(
+            OWNER,
+            &h.fee.vault_factory,
+            &white_whale_std::vault_network::vault_factory::ExecuteMsg::UpdateVaultConfig {
+                vault_addr: h.vault.vault.clone(),
+                params: white_whale_std::vault_network::vault::UpdateConfigParams { flash_loan_enabled: Some(true), deposit_enabled: Some(true), withdraw_enabled: Some(true), new_owner: no.clone(), new_vault_fees: Some(FH_FEES.vault()), new_fee_collector_addr: coll.clone() },
+            },
+            &[],
+        )
+        .expect("combined vault");
+        w.exec(OWNER, &h.fee.pool_factory, &white_whale_std::pool_network::factory::ExecuteMsg::UpdateConfig { owner: no.clone(), fee_collector_addr: coll.clone(), token_code_id: Some(w.codes.token), pair_code_id: Some(w.codes.pair), trio_code_id: Some(w.codes.trio) }, &[]).expect("combined pool factory");
+        w.exec(OWNER, &h.fee.vault_factory, &white_whale_std::vault_network::vault_factory::ExecuteMsg::UpdateConfig { owner: no.clone(), fee_collector_addr: coll.clone(), vault_id: Some(w.codes.vault), token_id: Some(w.codes.token) }, &[]).expect("combined vault factory");
+        let ic: white_whale_std::pool_network::incentive_factory::Config = w.query(&h.ifactory, &white_whale_std::pool_network::incentive_factory::QueryMsg::Config {}).unwrap();
+        w.exec(
+            OWNER,
+            &h.ifactory,
+            &white_whale_std::pool_network::incentive_factory::ExecuteMsg::UpdateConfig {
+                owner: no.clone(),
+                fee_collector_addr: Some(ic.fee_collector_addr.to_string()),
+                fee_distributor_addr: Some(ic.fee_distributor_addr.to_string()),
+                create_flow_fee: Some(ic.create_flow_fee.clone()),
+                max_concurrent_flows: Some(ic.max_concurrent_flows),
+                incentive_code_id: Some(ic.incentive_code_id),
+                max_flow_start_time_buffer: Some(ic.max_flow_epoch_buffer),
+                min_unbonding_duration: Some(ic.min_unbonding_duration),
+                max_unbonding_duration: Some(ic.max_unbonding_duration),
+            },
+            &[],
+        )
+        .expect("combined incentive factory");
+        let cc: white_whale_std::fee_collector::Config = w.query(&h.fee.collector, &white_whale_std::fee_collector::QueryMsg::Config {}).unwrap();
+        w.exec(
+            OWNER,
+            &h.fee.collector,
+            &white_whale_std::fee_collector::ExecuteMsg::UpdateConfig {
+                owner: no.clone(),
+                pool_router: Some(cc.pool_router.to_string()),
+                fee_distributor: Some(cc.fee_distributor.to_string()),
+                pool_factory: Some(cc.pool_factory.to_string()),
+                vault_factory: Some(cc.vault_factory.to_string()),
+                take_rate: Some(cc.take_rate),
+                take_rate_dao_address: Some(if cc.take_rate_dao_address.as_str().is_empty() { "daotreasury".to_string() } else { cc.take_rate_dao_address.to_string() }),
+                is_take_rate_active: Some(cc.is_take_rate_active),
+            },
+            &[],
+        )
+        .expect("combined collector");
+        let dc: white_whale_std::fee_distributor::Config = w.query(&h.fee.distributor, &white_whale_std::fee_distributor::QueryMsg::Config {}).unwrap();
+        w.exec(
+            OWNER,
+            &h.fee.distributor,
+            &white_whale_std::fee_distributor::ExecuteMsg::UpdateConfig {
+                owner: no.clone(),
+                bonding_contract_addr: Some(dc.bonding_contract_addr.to_string()),
+                fee_collector_addr: Some(dc.fee_collector_addr.to_string()),
+                grace_period: Some(dc.grace_period),
+                distribution_asset: Some(dc.distribution_asset.clone()),
+                epoch_config: Some(dc.epoch_config.clone()),
+            },
+            &[],
+        )
+        .expect("combined distributor");
+        let lc: white_whale_std::whale_lair::Config = w.query(&h.fee.lair, &white_whale_std::whale_lair::QueryMsg::Config {}).unwrap();
+        w.exec(OWNER, &h.fee.lair, &white_whale_std::whale_lair::ExecuteMsg::UpdateConfig { owner: no.clone(), unbonding_period: Some(lc.unbonding_period), growth_rate: Some(lc.growth_rate), fee_distributor_addr: Some(lc.fee_distributor_addr.to_string()) }, &[]).expect("combined lair");
+        w.exec(OWNER, &h.vault_router, &white_whale_std::vault_network::vault_router::ExecuteMsg::UpdateConfig { owner: no.clone(), vault_factory_addr: Some(h.fee.vault_factory.clone()) }, &[]).expect("combined vault router");
+        w.exec(OWNER, &h.helper, &white_whale_std::pool_network::frontend_helper::ExecuteMsg::UpdateConfig { incentive_factory_addr: Some(h.ifactory.clone()), owner: no.clone() }, &[]).expect("combined helper");
+        w.exec(
+            OWNER,
+            &h.epoch_manager,
+            &white_whale_std::epoch_manager::epoch_manager::ExecuteMsg::UpdateConfig { owner: no.clone(), epoch_config: Some(white_whale_std::epoch_manager::epoch_manager::EpochConfig { duration: Uint64::new(crate::scn_lair::DAY_NS), genesis_epoch: Uint64::new(h.genesis_ns) }) },
+            &[],
+        )
+        .expect("combined epoch manager");
+        w.exec_cosmos(OWNER, CosmosMsg::Wasm(WasmMsg::UpdateAdmin { contract_addr: h.fee.pool_router.clone(), admin: NEWOWNER.to_string() })).unwrap();
+    } else if after_transfer {
         let no = Some(NEWOWNER.to_string());
         w.exec(OWNER, &h.fee.pool_factory, &white_whale_std::pool_network::factory::ExecuteMsg::UpdatePairConfig { pair_addr: h.pair.addr.clone(), owner: no.clone(), fee_collector_addr: None, pool_fees: None, feature_toggle: None }, &[]).unwrap();
         w.exec(OWNER, &h.fee.pool_factory, &white_whale_std::pool_network::factory::ExecuteMsg::UpdateTrioConfig { trio_addr: h.trio.addr.clone(), owner: no.clone(), fee_collector_addr: None, pool_fees: None, feature_toggle: None, amp_factor: None }, &[]).unwrap();
@@ -488,8 +572,8 @@ pub fn run(tier: &str, seed: u64) -> i32 {
         "public operations (swap, deposit, claim, ...) are not part of this matrix".into(),
     ];
     let mut table = vec![];
-    for after in [false, true] {
-        let s = build(after);
+    for (after, combined) in [(false, false), (true, false), (true, true)] {
+        let s = build(after, combined);
         let ens = entries(&s, after);
         let cs = callers(&s);
         let n = ens.len() * cs.len();
@@ -502,10 +586,10 @@ pub fn run(tier: &str, seed: u64) -> i32 {
             }
         }
         ev.add_grid_result(
-            if after { "privilege-matrix-after-ownership-transfer" } else { "privilege-matrix" },
+            if combined { "privilege-matrix-after-ownership-transfer-in-combined-messages" } else if after { "privilege-matrix-after-ownership-transfer" } else { "privilege-matrix" },
             "every privileged ExecuteMsg variant x every caller role (owner, other owner, users, flow creator, proxy contract, each hub contract's address)",
             res,
-            &|i| json!({"after_transfer": after, "op": ens[i / cs.len()].label, "caller": cs[i % cs.len()].0, "caller_addr": cs[i % cs.len()].1}),
+            &|i| json!({"after_transfer": after, "combined_transfer": combined, "op": ens[i / cs.len()].label, "caller": cs[i % cs.len()].0, "caller_addr": cs[i % cs.len()].1}),
             &[0, n / 2, n - 1],
         );
     }
@@ -521,7 +605,7 @@ pub fn run(tier: &str, seed: u64) -> i32 {
 pub fn replay(doc: &Value) -> bool {
     let p = &doc["point"];
     let after = p["after_transfer"].as_bool().unwrap();
-    let s = build(after);
+    let s = build(after, p["combined_transfer"].as_bool().unwrap_or(false));
     let ens = entries(&s, after);
     let cs = callers(&s);
     let en = ens.iter().find(|e| e.label == p["op"].as_str().unwrap()).expect("op");
